@@ -616,7 +616,7 @@ def run(ctx, only_cases=None):
         "model_vs_impl_cases": len(terms), "model_vs_impl_mismatches": len(mism), "impl_property_failures": nfail,
         "impl_property_failures_by_key": {k: len(v) for k, v in by_key.items()},
         "code_variant_probed": dict(zip(["unregister_guard", "refresh_renews_index", "heartbeat_refreshes", "pointer_shape_accepted",
-                                         "index_test_and_write_is_one_cas", "client_state_service_atomic"], variant or [])),
+                                         "index_test_and_write_is_one_cas", "client_state_service_atomic", "state_tombstone_blocks_rebuild_ms"], variant or [])),
         "state_cas_by_backend": {b: max([o["variant"][5] for c, o in zip(ccases, couts) if c["backend"] == b and is_state_phase(c)] or [-1]) for b in BACKENDS},
         "index_cas_by_backend": {b: max([o["variant"][4] for c, o in zip(ccases, couts) if c["backend"] == b] or [-1]) for b in BACKENDS},
         "max_wallclock_lateness_ms": max([o["max_late_ms"] for o in outs] or [0]),
